@@ -61,6 +61,81 @@ fn saturated_root(rng: &mut Rng) -> Option<GameState> {
     Some(g)
 }
 
+/// Sibling games: a lone mobile piece X walks v-d, d-v-u, u-v-d, d-v-u in one game and v-w, w-v-u, u-v-d, d-v-u in the other
+/// (the other side shuffles a far-away piece): both end in the same position after the same number
+/// of turns (same history length, same newest entry), but 'X on d' (two steps from the final square, so that a four-step turn can recreate it) has occurred twice in the first
+/// and once in the second - what one of them may not repeat, the other may.
+fn sibling_roots(rng: &mut Rng) -> Vec<GameState> {
+    use crate::model::*;
+    for _ in 0..40 {
+        // u centre, v beside it, d and w the two squares beyond v on either side (both two steps from u)
+        let u = [26usize, 27, 28, 29, 34, 35, 36, 37][rng.below(8)];
+        let (ur, uc) = ((u / 8) as i32, (u % 8) as i32);
+        let dc: i32 = if rng.chance(1, 2) { 1 } else { -1 };
+        let dr: i32 = if rng.chance(1, 2) { 1 } else { -1 };
+        let v = (ur * 8 + uc + dc) as usize;
+        let d = ((ur + dr) * 8 + uc + dc) as usize;
+        let w = ((ur - dr) * 8 + uc + dc) as usize;
+        if [u, v, d, w].iter().any(|q| TRAPS.contains(q)) {
+            continue;
+        }
+        let (za, zb) = if uc + dc < 4 { (31usize, 39usize) } else { (24usize, 32usize) };
+        let gold = rng.chance(1, 2);
+        let mut b = MBoard::empty();
+        b.0[56] = cell(0, true);
+        b.0[48] = cell(1 + rng.below(2) as u8, false);
+        b.0[7] = cell(0, false);
+        b.0[za] = cell(2 + rng.below(3) as u8, false);
+        b.0[v] = cell(1 + rng.below(5) as u8, true);
+        let flip = !gold;
+        let tb = b.transform(false, flip);
+        let step = |from: usize, to: usize| -> Option<Code> { (0..4u8).find(|k| nb(from, *k) == Some(to)).map(|k| map_code(step_code(from, k), false, flip)) };
+        let mut roots = vec![];
+        // game A: X v-d, d-v-u, u-v-d, d-v-u ; game B: X v-w, w-v-u, u-v-d, d-v-u
+        for first in [d, w] {
+            let turns: [Vec<usize>; 4] = [vec![v, first], vec![first, v, u], vec![u, v, d], vec![d, v, u]];
+            let mut script: Vec<Code> = vec![];
+            let mut z = za;
+            let mut ok = true;
+            for t in turns.iter() {
+                for k in 0..t.len() - 1 {
+                    match step(t[k], t[k + 1]) {
+                        Some(c) => script.push(c),
+                        None => ok = false,
+                    }
+                }
+                script.push(PASS);
+                let zt = if z == za { zb } else { za };
+                match step(z, zt) {
+                    Some(c) => script.push(c),
+                    None => ok = false,
+                }
+                script.push(PASS);
+                z = zt;
+            }
+            if !ok {
+                break;
+            }
+            let mut g = inject(&tb, gold, 2 + rng.below(30) as u64);
+            for c in &script {
+                let a = code_act(*c);
+                if !g.valid_actions().contains(&a) {
+                    ok = false;
+                    break;
+                }
+                g = g.take_action(&a);
+            }
+            if ok {
+                roots.push(g);
+            }
+        }
+        if roots.len() == 2 {
+            return roots;
+        }
+    }
+    vec![]
+}
+
 fn setup_root(rng: &mut Rng) -> GameState {
     let mut g = GameState::initial();
     let n = rng.below(32);
@@ -178,6 +253,39 @@ pub fn c18(cfg: &Cfg) -> i32 {
                         s.count("shared_tail_list_rounds");
                         if total != n * (t + 16) {
                             s.violate("C18", "shared_tail_list_length", format!("C18|shared_tail|{}|{}", t, n), format!("lists sharing a {}-node tail: total length {} != {}", t, total, n * (t + 16)), json!({"kind": "threads", "observer": "shared_tail_lists"}));
+                        }
+                    }
+                    // pool rounds: thousands of different states queried by all threads at once in different orders
+                    for k in 0..cfg.n(6, 120) {
+                        let mut roots: Vec<GameState> = vec![c18bare::build_repetition_root(k), c18bare::build_root(cfg.seed ^ k, 3 + (k % 20) as u32, k % 2 == 0)];
+                        if let Some(g) = saturated_root(&mut rng) {
+                            // the step-2 predecessors of a saturated final state are step-3 states with mixed answers
+                            roots.push(g);
+                        }
+                        if let Some(g) = w3_root(&mut rng, 10 + (k % 30) as u32, false) {
+                            roots.push(g);
+                        }
+                        let sib = sibling_roots(&mut rng);
+                        if !sib.is_empty() {
+                            s.count("pool_rounds_with_sibling_games");
+                            // duel: each thread hammers the step-3 states of ITS sibling game only
+                            let groups: Vec<Vec<GameState>> = sib.iter().map(|r| c18bare::states_at_step(r, 3, 60)).collect();
+                            if groups.iter().all(|g| !g.is_empty()) {
+                                let (bad, n) = c18bare::duel_round(&groups, 4 + (k as usize % 3) * 2, 30);
+                                s.add("sibling_duel_queries", n as u64);
+                                s.add("nodes_compared", n as u64);
+                                if bad > 0 {
+                                    s.violate("C18", "concurrent_result_ne_sequential", format!("C18|duel|{}", k), format!("sibling duel {}: {} of {} answers differ from the sequential ones while other threads query the states of a sibling game (same position, same history length, different history)", k, bad, n), json!({"kind": "threads", "observer": "sibling_duel", "round": k, "seed": cfg.seed}));
+                                }
+                            }
+                        }
+                        roots.extend(sib);
+                        let (bad, n) = c18bare::pool_round(&roots, 3, 8 + (k as usize % 3) * 8, cfg.seed ^ (k << 8), 2, 6000);
+                        s.count("pool_rounds");
+                        s.add("pool_states_queried_concurrently", (n * 2 * (8 + (k as usize % 3) * 8)) as u64);
+                        s.add("nodes_compared", (n * 2 * (8 + (k as usize % 3) * 8)) as u64);
+                        if bad > 0 {
+                            s.violate("C18", "concurrent_result_ne_sequential", format!("C18|pool|{}", k), format!("pool round {}: {} answers on a pool of {} different states queried concurrently differ from the sequential answers", k, bad, n), json!({"kind": "threads", "observer": "pool_round", "round": k, "seed": cfg.seed}));
                         }
                     }
                     // last owners dropping at the same instant: stack span while the nodes are freed
@@ -334,9 +442,9 @@ pub fn c18(cfg: &Cfg) -> i32 {
 
     let rep = Report {
         evaluations_counter: "nodes_compared",
-        rule: "W12. Observer 1 (build-time): a probe crate requiring Send + Sync of 13 public types (and Arc/Vec/spawn uses) must compile. Observer 2: roots after setup + 0..40 turns, mid-turn roots, W3 roots with shared histories, setup-phase roots, scripted third-repetition roots at step 3 and W5b roots where every turn-ender is withheld (several history lookups with different answers per query; these roots are additionally queried 40 times per thread) are expanded to depth 1-2 by 4..32 threads (shared via Arc, borrowed with concurrent clone/drop threads, or moved clones) in permuted orders with seeded yields/spins between engine calls; every thread's (path, fingerprint) vector must equal the sequential expansion and a deep fingerprint of the root (incl. every history entry) must be unchanged; lists sharing tails of up to 180 000 nodes are dropped from 4..15 threads, and 2-4 threads drop the last handles of one list at the same instant (spin barrier) while drop probes measure the stack span over which the nodes are freed. Observer 2b: fresh native processes in which 4-16 threads make the very first engine calls at the same instant (cold start: lazily initialised process-wide state) must agree with the sequential result. Observer 3: the same bare workload (no shared monitor state) under ThreadSanitizer (-Zbuild-std) and under Miri -Zmiri-many-seeds. distinct_nontrivial = distinct thread completion orders observed natively.".into(),
+        rule: "W12. Observer 1 (build-time): a probe crate requiring Send + Sync of 13 public types (and Arc/Vec/spawn uses) must compile. Observer 2: roots after setup + 0..40 turns, mid-turn roots, W3 roots with shared histories, setup-phase roots, scripted third-repetition roots at step 3 and W5b roots where every turn-ender is withheld (several history lookups with different answers per query; these roots are additionally queried 40 times per thread) are expanded to depth 1-2 by 4..32 threads (shared via Arc, borrowed with concurrent clone/drop threads, or moved clones) in permuted orders with seeded yields/spins between engine calls; every thread's (path, fingerprint) vector must equal the sequential expansion and a deep fingerprint of the root (incl. every history entry) must be unchanged; lists sharing tails of up to 180 000 nodes are dropped from 4..15 threads, and 2-4 threads drop the last handles of one list at the same instant (spin barrier) while drop probes measure the stack span over which the nodes are freed. Pool rounds: the turn trees (depth 3, up to 4 000 different states) below several roots are queried by 8-24 threads at once, each thread in its own order, and every answer is compared with the sequential one (cross-talk between different states and queries); the roots include 'sibling games' that reach the same position after the same number of turns with different histories. Observer 2b: fresh native processes in which 4-16 threads make the very first engine calls at the same instant (cold start: lazily initialised process-wide state) must agree with the sequential result. Observer 3: the same bare workload (no shared monitor state) under ThreadSanitizer (-Zbuild-std) and under Miri -Zmiri-many-seeds. distinct_nontrivial = distinct thread completion orders observed natively.".into(),
         assumptions: vec!["'under every interleaving' is sampled (rounds, TSan runs, Miri seeds), not enumerated".into(), "the Send + Sync half is decided by the compiler on a probe crate (a build-time observation)".into(), "TSan/Miri see only the code the bare workload reaches (all public queries + take_action + clone/drop)".into()],
-        floors: vec![floor("rounds", 5000, 150_000), floor("nodes_compared", 500_000, 20_000_000), floor("distinct_thread_completion_orders", 500, 5000), floor("tsan_runs", 12, 200), floor("tsan_nodes_compared", 10_000, 100_000), floor("miri_seeds_completed", 12, 96), floor("autotrait_probe_builds", 1, 1), floor("longest_shared_history", 20, 30), floor("rounds_root_third_repetition_at_step3", 500, 15_000), floor("rounds_root_saturated_all_withheld", 400, 12_000), floor("simultaneous_last_owner_drop_rounds", 500, 5000), floor("cold_start_processes", 64, 1000)],
+        floors: vec![floor("rounds", 5000, 150_000), floor("nodes_compared", 500_000, 20_000_000), floor("distinct_thread_completion_orders", 500, 5000), floor("tsan_runs", 12, 200), floor("tsan_nodes_compared", 10_000, 100_000), floor("miri_seeds_completed", 12, 96), floor("autotrait_probe_builds", 1, 1), floor("longest_shared_history", 20, 30), floor("rounds_root_third_repetition_at_step3", 500, 15_000), floor("rounds_root_saturated_all_withheld", 400, 12_000), floor("simultaneous_last_owner_drop_rounds", 500, 5000), floor("cold_start_processes", 64, 1000), floor("pool_rounds", 20, 400), floor("pool_rounds_with_sibling_games", 15, 300), floor("sibling_duel_queries", 50_000, 1_000_000), floor("pool_states_queried_concurrently", 200_000, 4_000_000)],
         level: "exploration",
         exhaustive: None,
         extra,
